@@ -29,7 +29,24 @@ type Embedded struct {
 // Embed wraps payload part(s) in a container with (optionally) random surrounding content.
 // For CR3, parts = [CMT1, CMT2 or nil, CMT4 or nil]; otherwise parts = [TIFF block].
 func Embed(l *core.Lane, kind int, parts [][]byte, surround bool) *Embedded {
+	return EmbedX(l, nil, kind, parts, surround)
+}
+
+// EmbedX is Embed with further surroundings drawn from the side lane x (nil or zero: none): a
+// JPEG also carries one or two XMP APP1 segments, which DrawJPEG places before or after the Exif
+// segment like any other.
+func EmbedX(l, x *core.Lane, kind int, parts [][]byte, surround bool) *Embedded {
 	e := &Embedded{Kind: kind}
+	var xmps [][]byte
+	if x != nil && kind == CJPEG {
+		for k := x.Intn(3); k > 0; k-- {
+			pkt := "<?xpacket begin='' id='W5M0MpCehiHzreSzNTczkc9d'?><x:xmpmeta xmlns:x='adobe:ns:meta/'><rdf:RDF xmlns:rdf='http://www.w3.org/1999/02/22-rdf-syntax-ns#'><rdf:Description rdf:about='' xmlns:xmp='http://ns.adobe.com/xap/1.0/' xmp:Rating='3'/></rdf:RDF></x:xmpmeta>"
+			for i := x.Intn(300); i > 0; i-- {
+				pkt += " "
+			}
+			xmps = append(xmps, []byte(pkt+"<?xpacket end='w'?>"))
+		}
+	}
 	switch kind {
 	case CTIFF:
 		e.Bytes = TIFFFile(l, parts[0], surround)
@@ -39,7 +56,7 @@ func Embed(l *core.Lane, kind int, parts [][]byte, surround bool) *Embedded {
 		if surround {
 			max = 6
 		}
-		j := DrawJPEG(l, JPEGOpts{Exif: [][]byte{parts[0]}, Max: max})
+		j := DrawJPEG(l, JPEGOpts{Exif: [][]byte{parts[0]}, XMP: xmps, Max: max})
 		e.Bytes = j.Bytes
 		for _, s := range j.Segs {
 			if s.Kind == "exif" {
@@ -67,6 +84,9 @@ func Embed(l *core.Lane, kind int, parts [][]byte, surround bool) *Embedded {
 		o.Use64 = surround
 		if surround && l.Bool() {
 			o.XMP = []byte("<?xpacket begin='' id='W5M0MpCehiHzreSzNTczkc9d'?><x:xmpmeta xmlns:x='adobe:ns:meta/'></x:xmpmeta><?xpacket end='w'?>")
+		}
+		if x != nil && x.Chance(1, 3) {
+			o.Top64 = 1
 		}
 		c := DrawCR3(l, o)
 		e.Bytes = c.Bytes
